@@ -648,11 +648,21 @@ pub fn template(r: &mut Rng) -> Case {
                 generated = format!("<{}> <{}> {}", hexw(lo), hexw(hi), target).into_bytes();
                 &generated[..]
             };
-            let cm = format!("/CIDInit /ProcSet findresource begin\n12 dict begin\nbegincmap\n/CMapName /X def\n/CMapType 2 def\n1 begincodespacerange\n<0000> <FFFF>\nendcodespacerange\n1 beginbfrange\n{}\nendbfrange\nendcmap\nCMapName currentdict /CMap defineresource pop\nend\nend\n", String::from_utf8_lossy(body));
-            let text: Vec<u8> = match r.below(4) {
+            // the mapping part: one range (usual), nothing at all (a code space that maps nothing), empty sections, or
+            // a single one-byte bfchar
+            let sections = match r.below(8) {
+                0 => String::new(),
+                1 => "0 beginbfrange\nendbfrange\n0 beginbfchar\nendbfchar\n".to_string(),
+                2 => "1 beginbfchar\n<41> <0041>\nendbfchar\n".to_string(),
+                _ => format!("1 beginbfrange\n{}\nendbfrange\n", String::from_utf8_lossy(body)),
+            };
+            let cm = format!("/CIDInit /ProcSet findresource begin\n12 dict begin\nbegincmap\n/CMapName /X def\n/CMapType 2 def\n1 begincodespacerange\n<0000> <FFFF>\nendcodespacerange\n{}endcmap\nCMapName currentdict /CMap defineresource pop\nend\nend\n", sections);
+            let text: Vec<u8> = match r.below(6) {
                 0 => vec![0, 0, 0, 5, 0xff, 0xff, 0xff, 0xff],
                 1 => vec![0, 1, 0, 2, 0xff, 0xff, 0x00, 0xff],
                 2 => r.bytes(16),
+                3 => vec![1u8; 300],
+                4 => r.bytes(700),
                 _ => (0..=255u8).collect(),
             };
             Case { entry: 6, bytes: cm.into_bytes(), aux: vec![(b"Encoding".to_vec(), RObj::Name(b"Identity-H".to_vec()))], text, origin: "template:cmap-ranges".into() }
